@@ -35,6 +35,14 @@ class LibMixin:
             if at.kind == 'iter':
                 step = '1' if len(args) == 1 or args[1].get('kind') == 'CXXDefaultArgExpr' else self.expr(args[1])
                 return '(%s %s (size_t)%s)' % (self.expr(args[0]), '+' if name == 'next' else '-', step)
+        if name == 'advance' and len(args) == 2 and self.tyq(args[0]['type']).kind == 'iter':
+            self.rules['std::advance'] += 1
+            # iterator = index; moving before begin() or past end() is UB for the real iterator
+            it = self.expr(args[0]); nn = self.expr(args[1], rvalue=True)
+            cont = self.find_container_in(args[0])
+            if cont is not None:
+                self.pre.append('__CPROVER_assert((long)%s + (long)(%s) >= 0 && (long)%s + (long)(%s) <= (long)%s.size, "std::advance keeps the iterator inside [begin, end] (else UB)");' % (it, nn, it, nn, cont))
+            return '(%s = (size_t)((long)%s + (long)(%s)))' % (it, it, nn)
         if name == 'find' and len(args) == 3:
             cont = self.find_container_in(args[0])
             ct = self.container_type(args[0])
@@ -115,6 +123,14 @@ class LibMixin:
             if m == 'end' or m == 'cend': return '%s.size' % o
             if m in ('rbegin', 'crbegin'): return '%s.size' % o      # reverse iterator = index one past the element
             if m in ('rend', 'crend'): return '((size_t)0)'
+            if m == 'erase' and len(args) == 2:
+                self.rules['vector::erase(first,last)'] += 1
+                return self.cont_call(t, 'erase_range', o, [self.expr(args[0]), self.expr(args[1])])
+            if m in ('emplace', 'insert') and len(args) == 2 and self.same_c(args[1], t.elem):
+                if self.has_side_effects(args[0]): raise Unsupported('side effect in insert position')
+                self.rules['vector::emplace/insert(pos, value)'] += 1
+                pos = self.expr(args[0])
+                return '(%s, %s)' % (self.cont_call(t, 'insert_at', o, [pos, self.expr(args[1], rvalue=True)]), pos)
             if m == 'erase' and len(args) == 1:
                 self.rules['vector::erase(iterator)'] += 1
                 return self.cont_call(t, 'erase_at', o, [self.expr(args[0])])
@@ -173,9 +189,13 @@ class LibMixin:
 
     def container_type(self, itexpr):
         c = self.skip(itexpr)
+        if c.get('kind') == 'CXXConstructExpr' and len(c.get('inner', [])) == 1:
+            return self.container_type(c['inner'][0])
         if c.get('kind') in ('CallExpr', 'CXXMemberCallExpr'):
             try: d, r = self.callee_decl(c)
             except Unsupported: return None
+            if r.get('name') in ('prev', 'next') and c['kind'] == 'CallExpr':
+                return self.container_type(c['inner'][1])
             if r.get('name') in ('begin', 'end', 'cbegin', 'cend', 'rbegin', 'rend', 'crbegin', 'crend'):
                 if c['kind'] == 'CallExpr': return self.etype(c['inner'][1])
                 me = self.skip(c['inner'][0]); return self.etype(me['inner'][0])
@@ -197,7 +217,7 @@ class LibMixin:
         try: return self.tyq(arg['type']).c == t.c
         except Unsupported: return False
 
-    MUTATORS = {'push_back', 'pop_back', 'clear', 'erase_at', 'insert_at', 'insert', 'erase', 'emplace', 'reverse', 'resize'}
+    MUTATORS = {'push_back', 'pop_back', 'clear', 'erase_at', 'erase_range', 'insert_at', 'insert', 'erase', 'emplace', 'reverse', 'resize'}
     def cont_call(self, t, op, o, args=()):
         """call of a container stub on lvalue text `o`.  CBMC 6.11 mis-reads through pointers to an
         element nested in a struct array reached via a pointer parameter (DESIGN §2 item 8), so for
@@ -260,6 +280,13 @@ class LibMixin:
                 return '(&%s)' % self.chk('%s.has' % o, 'optional::operator-> on empty (UB)', '%s.val' % o)
             if op == '=':
                 return '(%s = %s)' % (o, self.expr(args[1]))
+        if t.kind in ('iter', 'riter') and op == '=':
+            c0 = self.skip(args[0])
+            if c0.get('kind') == 'DeclRefExpr' and c0['referencedDecl']['id'] not in self.iter_of:
+                cc = self.find_container_in(args[1]); ct = self.find_container_type_in(args[1])
+                if cc is not None: self.iter_of[c0['referencedDecl']['id']] = cc
+                if ct is not None: self.iter_ty[c0['referencedDecl']['id']] = ct
+            return '(%s = %s)' % (self.expr(args[0]), self.expr(args[1], rvalue=True))
         if t.kind == 'iter':
             o = self.expr(args[0])
             if op == '++' or op == '--':
@@ -292,6 +319,8 @@ class LibMixin:
 
     def iter_container(self, itexpr):
         c = self.skip(itexpr)
+        if c.get('kind') == 'CXXConstructExpr' and len(c.get('inner', [])) == 1:
+            return self.iter_container(c['inner'][0])     # copy of an iterator
         if c.get('kind') == 'DeclRefExpr':
             return self.iter_of.get(c['referencedDecl']['id'])
         if c.get('kind') in ('CallExpr', 'CXXMemberCallExpr'):
@@ -300,6 +329,8 @@ class LibMixin:
                 d, r = self.callee_decl(c)
             except Unsupported:
                 return None
+            if r.get('name') in ('prev', 'next') and c['kind'] == 'CallExpr':
+                return self.iter_container(c['inner'][1])
             if r.get('name') in ('begin', 'end', 'cbegin', 'cend', 'rbegin', 'rend', 'crbegin', 'crend'):
                 if c['kind'] == 'CallExpr': return self.expr(c['inner'][1])
                 me = self.skip(c['inner'][0]); return self.obj_text(me['inner'][0], me.get('isArrow'))
